@@ -250,3 +250,21 @@ def nested_old(rows):
     for r in rows:
         r["c"] = r.get("c", 0) + 1
     return len(rows)
+
+
+def ident(xs):
+    return xs
+
+
+def sneaky(d):
+    d["x"] = 1
+    return 0
+
+
+def lookup(d, k):
+    return d[k]
+
+
+def impure_len(xs):
+    xs.append(0)
+    return len(xs)
